@@ -30,7 +30,7 @@ ASSUMPTIONS = ["members take price fields as input, never one another", "top-lev
 
 def plan(tier):
     if tier == "thorough":
-        return {"shards": 16, "cases": 24000, "shard_timeout_s": 3000, "shard_budget_s": 1500}
+        return {"shards": 16, "cases": 60000, "shard_timeout_s": 3000, "shard_budget_s": 1500}
     return {"shards": 16, "cases": 3000, "shard_timeout_s": 600, "shard_budget_s": 100}
 
 
